@@ -279,3 +279,33 @@ def trace_const(body, op, defs=None, depth=0):
     if rv["k"] == "cast":
         return trace_const(body, rv["op"], defs, depth + 1)
     return None
+
+
+def natural_loops(body):
+    """header -> set of blocks of the natural loop(s) with that header."""
+    info = {}
+    dom_ = dominators(body)
+    pm = preds_map(body)
+    for (s, h) in back_edges(body):
+        loop = {h, s}
+        work = [s]
+        while work:
+            x = work.pop()
+            if x == h:
+                continue
+            for pr in pm.get(x, []):
+                if pr not in loop and h in dom_.get(pr, ()):
+                    loop.add(pr)
+                    work.append(pr)
+        info[h] = info.get(h, set()) | loop
+    return info
+
+
+def loop_exits(body, blocks):
+    """[(from block, to block)] edges that leave the loop (unwind/cleanup edges excluded)."""
+    out = []
+    for b in sorted(blocks):
+        for s in succs(body, b):
+            if s not in blocks:
+                out.append((b, s))
+    return out
